@@ -1,6 +1,6 @@
 (* Persist/WfProofs.v — load_wf (save_wf w d) = w for every well-formed workflow on every consistent database. *)
 From Coq Require Import List Bool NArith ZArith Arith Lia.
-From SF Require Import Base.Str DbCache.Model Persist.Model Persist.Proofs Persist.WfModel.
+From SF Require Import Base.Str DbCache.Model Persist.Model Persist.Proofs Persist.CfgModel Persist.CfgProofs Persist.WfModel.
 Import ListNotations.
 Local Open Scope string_scope. Local Open Scope list_scope.
 
@@ -215,6 +215,37 @@ Section OneWorkflow.
   Lemma forallb_mem l : forallb (fun pn => mem pn names) l = true -> forall x, In x l -> mem x names = true.
   Proof. intros Hf x Hx. rewrite forallb_forall in Hf. apply Hf. exact Hx. Qed.
 
+  Lemma In_filter_snd (f : string * string -> bool) l x : In x (map snd (filter f l)) -> In x (map snd l).
+  Proof.
+    intros H. apply in_map_iff in H. destruct H as [np [E Hin]]. apply filter_In in Hin. destruct Hin as [Hin _].
+    apply in_map_iff. exists np. auto.
+  Qed.
+
+  Definition conn_rows (l : list (string * string)) : list (string * nat) :=
+    map (fun np => (fst np, pidn (snd np))) (filter is_connector l).
+
+  Lemma conn_ids_ok l : (forall x, In x (map snd l) -> mem x names = true) -> conn_ids pidf l = Some (conn_rows l).
+  Proof.
+    intros Hm. unfold conn_ids, conn_rows.
+    assert (Hf : forall x, In x (map snd (filter is_connector l)) -> mem x names = true)
+      by (intros x Hx; apply Hm; eapply In_filter_snd; exact Hx).
+    induction (filter is_connector l) as [|[n pn] r IH]; simpl; [reflexivity|].
+    rewrite (pidf_mem pn (Hf pn (or_introl eq_refl))). simpl.
+    rewrite IH by (intros x Hx; apply Hf; right; exact Hx). reflexivity.
+  Qed.
+
+  Lemma conn_rows_exist l : (forall x, In x (map snd l) -> mem x names = true) ->
+    forallb (fun cp => match row_at tp (snd cp) with Some _ => true | None => false end) (conn_rows l) = true.
+  Proof.
+    intros Hm. unfold conn_rows.
+    assert (Hf : forall x, In x (map snd (filter is_connector l)) -> mem x names = true)
+      by (intros x Hx; apply Hm; eapply In_filter_snd; exact Hx).
+    induction (filter is_connector l) as [|[n pn] r IH]; simpl; [reflexivity|].
+    destruct (port_row_name pn (Hf pn (or_introl eq_refl))) as [p [Hp _]].
+    change (snd (n, pidn pn)) with (pidn pn). rewrite Hp. simpl.
+    apply IH. intros x Hx. apply Hf. right. exact Hx.
+  Qed.
+
   Definition step_deps (sid : nat) (s : pstep) : list drow := mkdeps sid true (s_in s) ++ mkdeps sid false (s_out s).
 
   Lemma step_deps_step sid s r : In r (step_deps sid s) -> d_step r = sid.
@@ -239,52 +270,66 @@ Section OneWorkflow.
   Qed.
 
   (* the inductive statement over the steps still to be saved *)
-  Lemma save_steps_ok : forall steps ts td,
+  Lemma save_steps_ok : forall steps ts td cfg,
     forallb (ok_step names) steps = true ->
     (forall r, In r td -> d_step r <= length ts) ->
-    exists R Dd,
-      save_steps pidf wid steps ts td = Some (ts ++ R, td ++ Dd) /\
+    exists R Dd cfgR,
+      save_steps pidf wid steps ts td cfg = Some (ts ++ R, td ++ Dd, cfgR) /\
+      cext cfg cfgR /\
       (forall r, In r R -> sr_wf r = wid) /\
       (forall r, In r Dd -> length ts < d_step r <= length ts + length steps) /\
-      (forall X Y,
+      (forall X Y cfgF, cext cfgR cfgF ->
          (forall r, In r X -> d_step r <= length ts) ->
          (forall r, In r Y -> ~ (length ts < d_step r <= length ts + length steps)) ->
-         mapM (load_step tp (X ++ Dd ++ Y) wid) (with_ids (length ts) R) = Some steps).
+         mapM (load_step tp (X ++ Dd ++ Y) cfgF wid) (with_ids (length ts) R) = Some steps).
   Proof.
-    induction steps as [|s rest IH]; intros ts td Hok Htd.
-    - exists [], []. simpl. rewrite !app_nil_r. split; [reflexivity|]. split; [intros r []|]. split; [intros r []|].
-      intros X Y _ _. reflexivity.
+    induction steps as [|s rest IH]; intros ts td cfg Hok Htd.
+    - exists [], [], cfg. simpl. rewrite !app_nil_r. split; [reflexivity|]. split; [apply cext_refl|].
+      split; [intros r []|]. split; [intros r []|]. intros X Y cfgF _ _ _. reflexivity.
     - simpl in Hok. apply andb_true_iff in Hok. destruct Hok as [Hs Hrest].
       unfold ok_step in Hs. repeat rewrite andb_true_iff in Hs. destruct Hs as [[[[Hnd Hmem] _] _] Hkind].
       rewrite map_app in Hnd, Hmem. rewrite forallb_app in Hmem. apply andb_true_iff in Hmem. destruct Hmem as [Hmi Hmo].
       set (sid := S (length ts)).
       set (Ds := step_deps sid s).
       (* the parameters of the step row *)
-      assert (Hp : exists dp, step_params pidf wid s = Some dp /\ load_kind tp wid dp = Some (s_kind s)).
-      { unfold step_params. destruct (s_kind s) as [|dp|lp c|cls|cls|conns] eqn:Ek.
+      assert (Hp : exists dp cfg1, step_params pidf wid s cfg = Some (dp, cfg1) /\ cext cfg cfg1 /\
+                   forall cfgF, cext cfg1 cfgF -> load_kind tp cfgF wid dp = Some (s_kind s)).
+      { unfold step_params. destruct (s_kind s) as [|dp|lp c|cls|cls|conns|dc|b prefix dirs] eqn:Ek.
         - destruct (alookup "__size__" (s_out s)) as [pn|] eqn:El; [|discriminate].
-          assert (Hm : mem pn names = true).
-          { apply (forallb_mem _ Hmo). apply (alookup_In_snd _ _ _ El). }
-          rewrite (pidf_mem pn Hm). eexists. split; [reflexivity|]. simpl.
+          assert (Hm : mem pn names = true) by (apply (forallb_mem _ Hmo); apply (alookup_In_snd _ _ _ El)).
+          rewrite (pidf_mem pn Hm). eexists _, cfg. split; [reflexivity|]. split; [apply cext_refl|]. intros cfgF _. simpl.
           destruct (port_row_name pn Hm) as [p [Hp' _]]. rewrite Hp'. reflexivity.
         - destruct (alookup "__size__" (s_in s)) as [pn|] eqn:El; [|discriminate].
-          assert (Hm : mem pn names = true).
-          { apply (forallb_mem _ Hmi). apply (alookup_In_snd _ _ _ El). }
-          rewrite (pidf_mem pn Hm). eexists. split; [reflexivity|]. simpl.
+          assert (Hm : mem pn names = true) by (apply (forallb_mem _ Hmi); apply (alookup_In_snd _ _ _ El)).
+          rewrite (pidf_mem pn Hm). eexists _, cfg. split; [reflexivity|]. split; [apply cext_refl|]. intros cfgF _. simpl.
           destruct (port_row_name pn Hm) as [p [Hp' _]]. rewrite Hp'. reflexivity.
-        - eexists. split; [reflexivity|]. simpl. rewrite comb_roundtrip. reflexivity.
-        - eexists. split; reflexivity.
+        - eexists _, cfg. split; [reflexivity|]. split; [apply cext_refl|]. intros cfgF _. simpl.
+          rewrite comb_roundtrip. reflexivity.
+        - eexists _, cfg. split; [reflexivity|]. split; [apply cext_refl|]. intros cfgF _. reflexivity.
         - destruct (alookup "__job__" (s_in s)) as [pn|] eqn:El; [|discriminate].
-          assert (Hm : mem pn names = true).
-          { apply (forallb_mem _ Hmi). apply (alookup_In_snd _ _ _ El). }
-          rewrite (pidf_mem pn Hm). eexists. split; [reflexivity|]. simpl.
+          assert (Hm : mem pn names = true) by (apply (forallb_mem _ Hmi); apply (alookup_In_snd _ _ _ El)).
+          rewrite (pidf_mem pn Hm). eexists _, cfg. split; [reflexivity|]. split; [apply cext_refl|]. intros cfgF _. simpl.
           destruct (port_row_name pn Hm) as [p [Hp' _]]. rewrite Hp'. reflexivity.
         - destruct (alookup "__job__" (s_in s)) as [pn|] eqn:El; [|discriminate].
-          assert (Hm : mem pn names = true).
-          { apply (forallb_mem _ Hmi). apply (alookup_In_snd _ _ _ El). }
-          rewrite (pidf_mem pn Hm). eexists. split; [reflexivity|]. simpl.
-          destruct (port_row_name pn Hm) as [p [Hp' _]]. rewrite Hp'. reflexivity. }
-      destruct Hp as [dp [Hdp Hlk]].
+          assert (Hm : mem pn names = true) by (apply (forallb_mem _ Hmi); apply (alookup_In_snd _ _ _ El)).
+          rewrite (pidf_mem pn Hm). eexists _, cfg. split; [reflexivity|]. split; [apply cext_refl|]. intros cfgF _. simpl.
+          destruct (port_row_name pn Hm) as [p [Hp' _]]. rewrite Hp'. reflexivity.
+        - destruct (alookup (dp_name dc) (s_out s)) as [pn|] eqn:El; [|discriminate].
+          assert (Hm : mem pn names = true) by (apply (forallb_mem _ Hmo); apply (alookup_In_snd _ _ _ El)).
+          rewrite (pidf_mem pn Hm). eexists _, _. split; [reflexivity|]. split; [apply save_deploy_ext|].
+          intros cfgF E. cbn [load_kind].
+          rewrite (load_deploy_ext _ _ _ _ E (deploy_roundtrip dc cfg)).
+          destruct (port_row_name pn Hm) as [p [Hp' _]]. rewrite Hp'. reflexivity.
+        - destruct (alookup "__job__" (s_out s)) as [pn|] eqn:El; [|discriminate].
+          assert (Hm : mem pn names = true) by (apply (forallb_mem _ Hmo); apply (alookup_In_snd _ _ _ El)).
+          rewrite (conn_ids_ok (s_in s) (forallb_mem _ Hmi)), (pidf_mem pn Hm).
+          eexists _, _. split; [reflexivity|]. split; [apply (proj2 (binding_roundtrip b cfg))|].
+          intros cfgF E. cbn [load_kind].
+          rewrite <- (surjective_pairing (fst (save_binding b cfg))).
+          rewrite (load_binding_ext _ _ _ _ E (proj1 (binding_roundtrip b cfg))).
+          destruct (port_row_name pn Hm) as [p [Hp' _]]. rewrite Hp'.
+          rewrite (conn_rows_exist (s_in s) (forallb_mem _ Hmi)). reflexivity. }
+      destruct Hp as [dp [cfg1 [Hdp [Hc1 Hlk]]]].
       (* its dependency rows go in without conflict *)
       assert (Hins : fold_left dep_insert (mkdeps sid true (s_in s) ++ mkdeps sid false (s_out s)) td = td ++ Ds).
       { apply (insert_fresh0 sid).
@@ -295,18 +340,18 @@ Section OneWorkflow.
           + apply nodupb_NoDup. exact Hnd. }
       set (row := mksrow (s_name s) wid (s_status s) dp).
       assert (Hlen : length (ts ++ [row]) = S (length ts)) by (rewrite app_length; simpl; lia).
-      destruct (IH (ts ++ [row]) (td ++ Ds) Hrest) as [R' [Dd' [Hsave [Hwf [Hrange Hload]]]]].
+      destruct (IH (ts ++ [row]) (td ++ Ds) cfg1 Hrest) as [R' [Dd' [cfgR [Hsave [HcR [Hwf [Hrange Hload]]]]]]].
       { intros r Hr. rewrite Hlen. apply in_app_or in Hr. destruct Hr as [Hr|Hr].
         - apply Htd in Hr. lia.
         - apply (step_deps_step sid s) in Hr. unfold sid in Hr. lia. }
-      exists (row :: R'), (Ds ++ Dd'). split; [|split; [|split]].
+      exists (row :: R'), (Ds ++ Dd'), cfgR. split; [|split; [exact (cext_trans _ _ _ Hc1 HcR)|split; [|split]]].
       + simpl. rewrite Hdp, (dep_rows_ok _ _ _ Hmi), (dep_rows_ok _ _ _ Hmo).
         fold sid. rewrite Hins. unfold row in Hsave |- *. rewrite Hsave. rewrite <- !app_assoc. reflexivity.
       + intros r [E|Hr]; [subst; reflexivity | apply Hwf; exact Hr].
       + intros r Hr. simpl. apply in_app_or in Hr. destruct Hr as [Hr|Hr].
         * apply (step_deps_step sid s) in Hr. unfold sid in Hr. lia.
         * apply Hrange in Hr. rewrite Hlen in Hr. lia.
-      + intros X Y HX HY. simpl with_ids.
+      + intros X Y cfgF HcF HX HY. simpl with_ids.
         (* the step just saved *)
         assert (Hf : forall b, filter (fun r => Nat.eqb (d_step r) sid && Bool.eqb (d_in r) b) (X ++ (Ds ++ Dd') ++ Y) =
                                if b then mkdeps sid true (s_in s) else mkdeps sid false (s_out s)).
@@ -319,20 +364,20 @@ Section OneWorkflow.
             destruct (Nat.eqb (d_step r) sid) eqn:E; [|reflexivity]. apply Nat.eqb_eq in E. unfold sid in E. lia.
           - intros r Hr. apply HX in Hr.
             destruct (Nat.eqb (d_step r) sid) eqn:E; [|reflexivity]. apply Nat.eqb_eq in E. unfold sid in E. lia. }
-        assert (H1 : load_step tp (X ++ (Ds ++ Dd') ++ Y) wid (S (length ts), row) = Some s).
-        { unfold load_step. simpl fst. simpl snd. unfold row at 1. simpl sr_params. rewrite Hlk.
+        assert (H1 : load_step tp (X ++ (Ds ++ Dd') ++ Y) cfgF wid (S (length ts), row) = Some s).
+        { unfold load_step. simpl fst. simpl snd. unfold row at 1. simpl sr_params. rewrite (Hlk cfgF (cext_trans _ _ _ HcR HcF)).
           unfold load_deps. fold sid. rewrite (Hf true), (Hf false).
           rewrite (load_back sid true (s_in s) (forallb_mem _ Hmi)), (load_back sid false (s_out s) (forallb_mem _ Hmo)).
           unfold row. simpl. destruct s; reflexivity. }
-        change (mapM (load_step tp (X ++ (Ds ++ Dd') ++ Y) wid) ((S (length ts), row) :: with_ids (S (length ts)) R'))
-          with (match load_step tp (X ++ (Ds ++ Dd') ++ Y) wid (S (length ts), row) with
+        change (mapM (load_step tp (X ++ (Ds ++ Dd') ++ Y) cfgF wid) ((S (length ts), row) :: with_ids (S (length ts)) R'))
+          with (match load_step tp (X ++ (Ds ++ Dd') ++ Y) cfgF wid (S (length ts), row) with
                 | None => None
-                | Some y => match mapM (load_step tp (X ++ (Ds ++ Dd') ++ Y) wid) (with_ids (S (length ts)) R') with
+                | Some y => match mapM (load_step tp (X ++ (Ds ++ Dd') ++ Y) cfgF wid) (with_ids (S (length ts)) R') with
                             | None => None | Some ys => Some (y :: ys) end
                 end).
         rewrite H1.
         replace (X ++ (Ds ++ Dd') ++ Y) with ((X ++ Ds) ++ Dd' ++ Y) by (rewrite <- !app_assoc; reflexivity).
-        rewrite <- Hlen. rewrite Hload; [reflexivity | |].
+        rewrite <- Hlen. rewrite (Hload _ _ cfgF HcF); [reflexivity | |].
         * intros r Hr. rewrite Hlen. apply in_app_or in Hr. destruct Hr as [Hr|Hr].
           -- apply HX in Hr. lia.
           -- apply (step_deps_step sid s) in Hr. unfold sid in Hr. lia.
@@ -361,11 +406,11 @@ Proof.
   set (wid := S (length (t_wf d))).
   assert (Htd : forall r, In r (t_dep d) -> d_step r <= length (t_step d)).
   { intros r Hr. rewrite forallb_forall in Hdd. apply Nat.leb_le. apply Hdd. exact Hr. }
-  destruct (save_steps_ok (t_port d) (w_ports w) wid (w_steps w) (t_step d) (t_dep d) Hsteps Htd)
-    as [R [Dd [Hsave [Hwf [_ Hload]]]]].
+  destruct (save_steps_ok (t_port d) (w_ports w) wid (w_steps w) (t_step d) (t_dep d) (t_cfg d) Hsteps Htd)
+    as [R [Dd [cfgR [Hsave [_ [Hwf [_ Hload]]]]]]].
   exists wid. eexists. split; [|split; [|reflexivity]].
   - unfold save_wf. fold wid. rewrite Hsave. reflexivity.
-  - unfold load_wf. simpl t_wf. unfold wid at 1. rewrite row_at_last. simpl t_port. simpl t_step. simpl t_dep.
+  - unfold load_wf. simpl t_wf. unfold wid at 1. rewrite row_at_last. simpl t_port. simpl t_step. simpl t_dep. simpl t_cfg.
     rewrite !with_ids_app, !filter_app.
     rewrite (filter_none _ (with_ids 0 (t_port d))).
     2:{ intros ix Hin. apply with_ids_snd in Hin. rewrite forallb_forall in Hdp. apply Hdp in Hin.
@@ -379,7 +424,7 @@ Proof.
     2:{ intros ix Hin. apply with_ids_snd in Hin. apply in_map_iff in Hin. destruct Hin as [p [E _]]. rewrite <- E.
         simpl. apply Nat.eqb_refl. }
     simpl app. simpl Nat.add. rewrite ports_back.
-    specialize (Hload (t_dep d) [] Htd (fun r (Hr : In r []) => match Hr with end)).
+    specialize (Hload (t_dep d) [] cfgR (cext_refl cfgR) Htd (fun r (Hr : In r []) => match Hr with end)).
     rewrite app_nil_r in Hload. rewrite Hload. simpl. destruct w; reflexivity.
 Qed.
 
@@ -400,8 +445,8 @@ Definition twice_witness : pwf :=
        [mkstep "/s" (KComb false (PComb CDot "c0" ["a"] [] [] [])) 0%Z [("a", "port0")] [("o", "port0")]].
 
 Lemma twice_witness_loses :
-  ok_db (mkwdb [] [] [] []) = true /\
-  exists d', save_wf twice_witness (mkwdb [] [] [] []) = Some (1, d') /\
+  ok_db (mkwdb [] [] [] [] (mkcdb [] [] [])) = true /\
+  exists d', save_wf twice_witness (mkwdb [] [] [] [] (mkcdb [] [] [])) = Some (1, d') /\
              load_wf d' 1 <> Some twice_witness /\ load_wf d' 1 <> None.
 Proof.
   split; [reflexivity|]. eexists. split; [vm_compute; reflexivity|].
